@@ -89,16 +89,18 @@ def finding_class(units, ans):
     if ans.startswith("internal"):
         m = re.search(r"msg=(.*)$", ans)
         return "internal:" + re.sub(r"[0-9]+", "N", m.group(1) if m else ans)[:90]
-    if classify(ans) == "err-empty" and len(units) == 1:
-        # failure with an empty error list: is it caused by an array literal with elements of different types?
-        name, src = units[0]
-        for mm in re.finditer(r"\[([^\[\]]*),([^\[\]]*)\]", src):
-            first = mm.group(1).split(",")[0]
-            n = mm.group(0).count(",") + 1
-            cand = src[:mm.start()] + "[" + ", ".join([first] * n) + "]" + src[mm.end():]
-            a2 = run_harness_serial(["alpha\tir\t%s\t%s" % (name, esc(cand))])[0]
-            if classify(a2) != "err-empty":
-                return "err-empty:array-literal-element-type-mismatch"
+    if classify(ans) == "err-empty":
+        # failure with an empty error list: is it caused by an array literal with elements of different types?  (equalise
+        # the elements of one literal at a time, in any of the modules, and see whether diagnostics or success come back)
+        for ui, (name, src) in enumerate(units):
+            for mm in re.finditer(r"\[([^\[\]]*),([^\[\]]*)\]", src):
+                first = mm.group(1).split(",")[0]
+                n = mm.group(0).count(",") + 1
+                cand = src[:mm.start()] + "[" + ", ".join([first] * n) + "]" + src[mm.end():]
+                units2 = [(nm, (cand if j == ui else sj)) for j, (nm, sj) in enumerate(units)]
+                a2 = run_harness_serial(["alpha\tir\t" + "\t".join(x for nm, sj in units2 for x in (nm, esc(sj)))])[0]
+                if classify(a2) != "err-empty":
+                    return "err-empty:array-literal-element-type-mismatch"
     return None
 
 
